@@ -245,18 +245,19 @@ for pid, txt, part in [
     ('C13', 'Kernel-checked: merge_self — for every well-formed database (root a group, pairwise distinct UUIDs, groups carry a modification time, no tombstone for a live node) '
             'merging it with an identical copy returns Ok, no events, the same tree and the same tombstones; component idempotence (history union, entry merge, group merge). '
             'Idempotence of a repeated merge of two different replicas is validated by the exhaustive/randomised enumeration on the real code and on the faithful model.',
-     ['C13_twice (a second merge of a different replica is a no-op) is stated but not proved; proved: the self-merge clause in full, component-level idempotence']),
-    ('C14', 'Kernel-checked component theorems (history union is sorted, duplicate-free and contains both sides; last-writer-wins for entries and groups). '
+     ['C13_twice (a second merge of the same source is a no-op) is stated but not proved; proved in full: the self-merge clause (merge_self) and the third clause (C13_result_self_merge: the merge result merged back into itself), component-level idempotence']),
+    ('C14', 'Kernel-checked: every source node without a tombstone in the destination (for it or a group above it) is in the result or tombstoned there (C14_source_nodes_created), no destination node is lost (C14_destination_nodes_kept); component theorems (history union is sorted, duplicate-free and contains both sides; last-writer-wins for entries and groups). '
             'The flat last-writer-wins reference (MergeSpec) is evaluated on the real result of every enumerated pair.',
      ['C14_refines (faithful model = flat reference for all replica pairs) is stated but not proved; the reference is evaluated as an oracle on every enumerated pair (a test)']),
-    ('C15', 'Kernel-checked: tombstone list only grows (prefix), boundary deletion_time = mtime keeps the node; clauses (no resurrection, present xor tombstoned, '
-            'deleted iff newer and empty) are evaluated on the real result of every enumerated pair.',
+    ('C15', 'Kernel-checked for every destination that is a group with pairwise distinct UUIDs below it and every source: a node the destination has deleted is never re-created '
+            '(C15_never_resurrects), no node of the result is both present and tombstoned (C15_no_node_present_and_tombstoned), the tombstone list only grows (prefix); boundary deletion_time = mtime keeps the node; '
+            'the clauses (incl. deleted iff newer and empty) are evaluated on the real result of every enumerated pair.',
      ['group_deleted_iff for every tombstone order is validated by enumeration (both orders), not proved']),
-    ('C16', 'Kernel-checked: mergeDeletions_terminates — on a destination tree that is a group with pairwise distinct UUIDs, for every source, the work queue of merge_deletions '
+    ('C16', 'Kernel-checked: C16_merge_terminates — the whole merge never exhausts the fuel of its only unbounded loop, for every destination that is a group with pairwise distinct UUIDs below it and every source (the group passes preserve that invariant: updates in place, moves, creations under UUIDs find_node_location did not find), the result is again such a tree and holds no node from nowhere; mergeDeletions_terminates — on a destination tree that is a group with pairwise distinct UUIDs, for every source, the work queue of merge_deletions '
             '(the only unbounded loop of merge; a group is re-queued while a child group is still queued) never exhausts the fuel (queue length + 1)^2 + 1: some queue element is always '
             'resolvable (a re-queued tombstone has a strictly deeper tombstoned node in the queue), rotations only permute the queue, removals keep UUIDs distinct. merge_group is structurally '
             'recursive over the source tree and the pass loop is bounded by the number of groups. Soundness clauses (unique UUIDs, nothing lost) are evaluated on the real result of every enumerated pair under a watchdog.',
-     ['that the tree handed to merge_deletions still has pairwise distinct UUIDs after the group pass (uniqueUuids/conserved invariants of merge_group) is validated by enumeration, not proved']),
+     ['that merge returns Ok on every pair of related replicas (no FindGroupError and the like) is validated by enumeration, not proved; proved for every source: termination of the whole merge (C16_merge_terminates), the result keeps pairwise distinct UUIDs (C16_merge_keeps_uuids_distinct) and holds no node from nowhere (C16_no_node_from_nowhere)']),
 ]:
     PROPS[pid] = {'ops': ['merge'], 'judge': make_merge_judge(pid), 'rule': MERGE_RULE, 'assumptions': MERGE_ASSUME,
                   'level_text': txt, 'partial': part, 'timeout': 3000, 'exhaustive': {'quick': False, 'thorough': False}}
@@ -600,8 +601,8 @@ PROPS['C12'] = {
     'rule': 'as C03, but each database carries exactly one hostile feature class out of {empty string, blank string, control character, non-character, extreme date, byte value (UTF-8 / not UTF-8), '
             'reserved time-stamp name, non-name time-stamp key, empty custom-data key, blank field key, tag with separator or blank, empty icon data, empty pool-binary content}; '
             'non-trivial = the feature was actually placed; failures are keyed by (feature class, outcome)',
-    'partial': ['C12 (full) is false on the unchanged code: one witness per failing feature class (recorded as known findings); C12_partial for the readable domain'],
-    'level_text': 'Kernel-checked over the models of writer, xml-rs contract and reader: witnesses for each unreadable class; the hostile generator runs the real save/open and the models on every class.',
+    'partial': ['C12 (full) is false on the unchanged code: one witness per failing feature class (recorded as known findings); C12_partial is proved for the domain ContentOk; between that domain and the witnesses lie the lossy-but-readable cases (examples proved, not characterised)'],
+    'level_text': 'Kernel-checked over the models of writer, xml-rs contract and reader: witnesses for each unreadable class, and C12_partial — on the whole domain ContentOk (all of the schema with XML-representable non-blank strings) save succeeds and its output re-opens, for every key stream, compressor pair and map order; the hostile generator runs the real save/open and the models on every class.',
 }
 
 LEGACY_ASSUME = FRAME_ASSUME + XML_ASSUME + ['KDBX 3.1 and KDB files are produced by independent builders (harness/src/legacy.rs); the XML document by an independent renderer with surface variations (harness/src/xmlgen.rs)',
@@ -623,5 +624,5 @@ for _pid, _ops in (('C01', ['frame-wf', 'surface']), ('C04', ['frame-cred', 'leg
     PROPS[_pid]['ops'] = _ops
     PROPS[_pid]['judge'] = judge_legacy(_pid)
     PROPS[_pid]['assumptions'] = LEGACY_ASSUME
-PROPS['C01']['partial'] = ['the struct-level XML mapping is validated (Lean reader model vs real reader vs intended database on independently rendered documents with surface variations), not proved']
+PROPS['C01']['partial'] = ['the XML mapping of arbitrary conforming documents (any child order, ISO times, surface variations) is validated (Lean reader model vs real reader vs intended database on independently rendered documents); proved about the reader model: unknown elements are skipped whole / rejected (C01_unknown_child_skipped, C01_unknown_child_rejected), no panic (C06_xml_total), documents in the writer\'s layout read back as written (C03_xml_roundtrip_partial)']
 PROPS['C04']['partial'] = [p for p in PROPS['C04']['partial'] if not p.startswith('KDBX 3.1 and KDB')] + ['for KDBX 3.1 and KDB the theorems (C04_kdbx3, C04_kdb) state what a successful open implies: the body decrypts, under the key derived from the offered credentials, to a payload that reproduces the stream-start bytes / the contents hash; that a different key does not is the ciphers\' and SHA-256\'s property, not modelled']
